@@ -11,13 +11,15 @@ Fixpoint build_all (l : list (res resource * list (str * value))) : res (list re
 
 (** observation of a page: for each element the values of the rule attributes
     (what the order is defined on; uint64 / *uint64 / *[]byte rules are never
-    compared by Less and are left out) and, when [with_ids], its id *)
+    compared by Less and are left out; a nil and an empty byte string compare
+    equal, so both are shown as empty) and, when [with_ids], its id *)
 Definition key_obs (rules : list str) (r : resource) : list obs :=
   flat_map (fun rule =>
               let n := fst (rule_name rule) in
               if String.eqb n "id" then []
               else match sort_operand r n with
                    | VInt 11 _ | VPtr 11 _ | VPtr 14 _ => []
+                   | VBytes _ b => [obs_value (VBytes false b)]
                    | v => [obs_value v]
                    end) rules.
 
